@@ -90,6 +90,21 @@
         exclusion is wider than the finding: a well-formed document with markup in an entity value is
         not covered either.
 
+    (8) round 2 -- THE CONVERSE FOR DOCUMENTS WITHOUT DOCTYPE, so that (4) is tight:
+          nodoctype_exactly_wellformed_partial :
+            forall s, (wf s = true /\ spec_nodoctype s = true) <->
+                      ((exists d, from_raw s = OOk ([], d)) /\ nodoctype s = true /\
+                       KnownD04_nodoctype s = false /\ KnownNS s = false)
+        ([spec_nodoctype s]: the specification's own parse of s has no document type declaration).
+        On this class the model accepts EXACTLY the namespace-well-formed documents, outside the two
+        findings; the half from right to left is (4), the half from left to right
+        ([wellformed_nodoctype_is_accepted_partial], also re-exported by Properties/C01.v) says that
+        the exclusions of (4) remove nothing that is well-formed.  Method (Proofs/XmlWFSyntaxConv*.v):
+        inversion of every function of the specification's recursive descent, then the printer
+        lemmas of C04 (`yields_*`, `parses_*`) and failure lemmas for the alternatives the PEG tries
+        first ([fails_of_no_succ] derives failure from termination when only non-success is known);
+        by induction on the fuel of the specification; the constraints by induction on the typed tree.
+
     Missing for the full conditional theorem
       forall s d, Known_C02 s = false -> from_raw s = OOk ([], d) -> wf s = true :
     entity values with markup or with `&` from a character reference, for which the statement needs
@@ -100,7 +115,8 @@ From XmlRs Require Import Base.CPred Spec.XmlChars Spec.XmlWF Model.Peg Gen.Gram
   Proofs.NameLanguage Proofs.XmlWFLexical Proofs.XmlWFModel Proofs.ParseInvElem
   Proofs.XmlWFSyntaxLex Proofs.XmlWFSyntaxElem Proofs.XmlWFSyntaxDoc Proofs.XmlWFSyntaxCheck
   Proofs.XmlWFSyntaxDtd Proofs.XmlWFSyntaxDtdElem Proofs.XmlWFSyntaxDtdDoc Proofs.XmlWFSyntaxDtdCheck
-  Proofs.XmlWFSyntaxEntRec Proofs.XmlWFSyntaxDtdFull.
+  Proofs.XmlWFSyntaxEntRec Proofs.XmlWFSyntaxDtdFull
+  Proofs.XmlWFSyntaxConvLex Proofs.XmlWFSyntaxConvElem Proofs.XmlWFSyntaxConvDoc Proofs.XmlWFSyntaxConvCheck.
 Import ListNotations.
 
 (** ** (3) *)
@@ -263,6 +279,18 @@ Example simple_hypotheses_satisfiable :
   /\ plain_entities ex_nested = false /\ KnownNS ex_nested = false.
 Proof. exact accepted_wf_simple_nonvacuous. Qed.
 
+(** ** (8) the converse for documents without DOCTYPE *)
+Theorem wellformed_nodoctype_is_accepted_partial : forall s, wf s = true -> spec_nodoctype s = true ->
+  exists d, from_raw s = OOk ([], d) /\ nodoctype s = true /\ KnownD04_nodoctype s = false.
+Proof. exact wf_nodoctype_accepted. Qed.
+
+Theorem nodoctype_exactly_wellformed_partial : forall s,
+  (wf s = true /\ spec_nodoctype s = true) <->
+  ((exists d, from_raw s = OOk ([], d)) /\ nodoctype s = true /\ KnownD04_nodoctype s = false /\ KnownNS s = false).
+Proof. exact nodoctype_language. Qed.
+
+Print Assumptions wellformed_nodoctype_is_accepted_partial.
+Print Assumptions nodoctype_exactly_wellformed_partial.
 Print Assumptions wf_is_wf_xml10.
 Print Assumptions model_recursion_check_is_sound.
 Print Assumptions constraints_simple_partial.
